@@ -20,6 +20,7 @@ import (
 	"io"
 	"log/slog"
 	"math"
+	"os"
 	"regexp"
 	"runtime"
 	"sort"
@@ -359,6 +360,10 @@ type firedJ struct {
 
 func coqFired(f firedJ) string { return hx.CoqPair(hx.CoqBytes(f.K), hx.CoqZ(f.T)) }
 
+var debug = os.Getenv("TIMERS_DEBUG") != ""
+
+var noCkpt = os.Getenv("TIMERS_NOCKPT") != "" // debugging only: every restore re-uses the DB object
+
 var hasTables = regexp.MustCompile(`, tables [1-9]`)
 
 var quiet = slog.New(slog.NewTextHandler(io.Discard, nil))
@@ -460,7 +465,7 @@ func (eng) Execute(mode string, c *hx.Case) (*hx.Result, error) {
 			if err := db.WaitOnTasks(); err != nil {
 				return nil, fmt.Errorf("op %d: WaitOnTasks: %v", i, err)
 			}
-			if o.How == "ckpt" {
+			if o.How == "ckpt" && !noCkpt {
 				ckptID++
 				h, err := db.Checkpoint(ckptID)()
 				if err != nil {
@@ -480,6 +485,14 @@ func (eng) Execute(mode string, c *hx.Case) (*hx.Result, error) {
 		}
 		if err := db.WaitOnTasks(); err != nil {
 			return nil, fmt.Errorf("op %d: WaitOnTasks: %v", i, err)
+		}
+		if debug {
+			var err error
+			var ks []string
+			for e := range db.ScanPrefix(nil, &err) {
+				ks = append(ks, fmt.Sprintf("%x", e.Key()))
+			}
+			fmt.Fprintf(os.Stderr, "op %d %s -> db %v err=%v\n", i, string(raw), ks, err)
 		}
 		if !tags["sstables"] && hasTables.MatchString(db.Diagnostics()) {
 			tags["sstables"] = true
